@@ -3,8 +3,8 @@
    zoom part, so header, chromosome table, data region and main index are the same (bw_same_regions)
    and the round trip holds for both.  The only thing the zoom part must guarantee is that at most
    MAX_ZOOM_LEVELS (10) levels are written, so that the zoom directory stays inside the space
-   write_blank_headers reserved ([zoom_levels_ok]: at most 10 distinct non-zero manual resolutions,
-   or max_zooms <= 10 in automatic mode). *)
+   write_blank_headers reserved; both writers guarantee it since /repo adc453b (before that repair
+   an 11th level made write_info's directory run into the summary slot). *)
 From BT Require Import Base.Util Base.LE Base.Float Generated.Consts Model.RTree Model.BBIFile
   Model.BigWigWrite Model.BBIRead Proofs.Chunks Proofs.BigWigQuery Proofs.RTreeCodec Proofs.FileRegions
   Proofs.BigWigFile Proofs.BigWigFileChroms Proofs.BigWigFileData Proofs.BigWigFileRoundTrip.
@@ -62,24 +62,15 @@ Proof. induction l as [|x l IH]; cbn [filter length]; [lia|]. destruct (f x); cb
 Lemma take_while_length {X} (f : X -> bool) l : (length (take_while f l) <= length l)%nat.
 Proof. induction l as [|x l IH]; cbn [take_while length]; [lia|]. destruct (f x); cbn [length]; lia. Qed.
 
-Definition zoom_levels_ok (o : opts) : Prop :=
-  match o_manual o with
-  | Some zs => (length (sort_dedup (filter (fun z : N => negb (z =? 0)%N) zs)) <= 10)%nat
-  | None => o_maxzooms o <= 10
-  end.
-
-Lemma zoom_sizes_single_len o : zoom_levels_ok o -> (length (zoom_sizes_single o) <= 10)%nat.
+(* since /repo adc453b both writers keep at most MAX_ZOOM_LEVELS (10) resolutions, whatever the options *)
+Lemma zoom_sizes_single_len o : (length (zoom_sizes_single o) <= 10)%nat.
+Proof. unfold zoom_sizes_single. cbv zeta. rewrite firstn_length. change (N.to_nat MAX_ZOOM_LEVELS) with 10%nat. lia. Qed.
+Lemma zoom_sizes_two_pass_len o sum counts ds : (length (zoom_sizes_two_pass o sum counts ds) <= 10)%nat.
 Proof.
-  unfold zoom_levels_ok, zoom_sizes_single. destruct (o_manual o) as [zs|]; intros H; [exact H|].
-  eapply Nat.le_trans; [apply sort_dedup_length|]. eapply Nat.le_trans; [apply filter_length|].
-  rewrite map_length, seq_length. lia.
-Qed.
-Lemma zoom_sizes_two_pass_len o sum counts ds : zoom_levels_ok o ->
-  (length (zoom_sizes_two_pass o sum counts ds) <= 10)%nat.
-Proof.
-  unfold zoom_levels_ok, zoom_sizes_two_pass. destruct (o_manual o) as [zs|]; intros H; [exact H|].
-  cbv zeta. rewrite map_length. eapply Nat.le_trans; [apply take_while_length|].
-  rewrite firstn_length. lia.
+  unfold zoom_sizes_two_pass. destruct (o_manual o) as [zs|].
+  - rewrite firstn_length. change (N.to_nat MAX_ZOOM_LEVELS) with 10%nat. lia.
+  - cbv zeta. rewrite map_length. eapply Nat.le_trans; [apply take_while_length|].
+    rewrite firstn_length. change MAX_ZOOM_LEVELS with 10. lia.
 Qed.
 
 (* ---------- the two writers as instances of assemble ---------- *)
@@ -120,20 +111,20 @@ Proof.
   cbv zeta. intros H. exists ids, outs, sum, data. split; [reflexivity|exact H].
 Qed.
 
-Lemma single_zoom_bound fp o outs zooms : zoom_levels_ok o ->
+Lemma single_zoom_bound fp o outs zooms :
   zoom_levels_for fp o outs (zoom_sizes_single o) = Ok zooms ->
   forall ds zp zb zh, single_zoom_part fp o outs zooms ds zp = Ok (zb, zh) -> Nlen zh <= 10.
 Proof.
-  intros Hz Hm ds zp zb zh H. unfold single_zoom_part in H. apply write_zooms_loop_len in H.
-  apply mapM_length in Hm. pose proof (zoom_sizes_single_len o Hz). unfold Nlen. lia.
+  intros Hm ds zp zb zh H. unfold single_zoom_part in H. apply write_zooms_loop_len in H.
+  apply mapM_length in Hm. pose proof (zoom_sizes_single_len o). unfold Nlen. lia.
 Qed.
-Lemma multi_zoom_bound fp o outs sum : zoom_levels_ok o ->
+Lemma multi_zoom_bound fp o outs sum :
   forall ds zp zb zh, multi_zoom_part fp o outs sum ds zp = Ok (zb, zh) -> Nlen zh <= 10.
 Proof.
-  intros Hz ds zp zb zh H. unfold multi_zoom_part in H. cbv zeta in H.
+  intros ds zp zb zh H. unfold multi_zoom_part in H. cbv zeta in H.
   destruct (zoom_levels_for _ _ _ _) as [zooms| | |] eqn:Em; cbn [rbind] in H; try discriminate.
   apply write_zooms_two_pass_len in H. apply mapM_length in Em.
-  pose proof (zoom_sizes_two_pass_len o sum (total_zoom_counts outs) ds Hz). unfold Nlen. lia.
+  pose proof (zoom_sizes_two_pass_len o sum (total_zoom_counts outs) ds). unfold Nlen. lia.
 Qed.
 
 (* ---------- the round trip, stated once for "a writer" ---------- *)
@@ -165,36 +156,36 @@ Proof.
 Qed.
 
 Theorem bw_write_roundtrip fp o sizes inp bs :
-  bw_write fp o sizes inp = Ok bs -> opts_ok o -> zoom_levels_ok o -> input_ok sizes inp -> Nlen bs < U64 ->
+  bw_write fp o sizes inp = Ok bs -> opts_ok o -> input_ok sizes inp -> Nlen bs < U64 ->
   roundtrip_for sizes inp bs.
 Proof.
-  intros H Ho Hz Hi Hs. destruct (bw_write_inv _ _ _ _ _ H) as (ids & outs & sum & data & zooms & Hcol & Hm & Hasm).
-  exact (roundtrip_of_assemble _ _ _ _ _ _ _ _ _ _ _ Hcol Hasm (single_zoom_bound fp o outs zooms Hz Hm) Ho Hi Hs).
+  intros H Ho Hi Hs. destruct (bw_write_inv _ _ _ _ _ H) as (ids & outs & sum & data & zooms & Hcol & Hm & Hasm).
+  exact (roundtrip_of_assemble _ _ _ _ _ _ _ _ _ _ _ Hcol Hasm (single_zoom_bound fp o outs zooms Hm) Ho Hi Hs).
 Qed.
 
 Theorem bw_write_multipass_roundtrip fp o sizes inp bs :
-  bw_write_multipass fp o sizes inp = Ok bs -> opts_ok o -> zoom_levels_ok o -> input_ok sizes inp -> Nlen bs < U64 ->
+  bw_write_multipass fp o sizes inp = Ok bs -> opts_ok o -> input_ok sizes inp -> Nlen bs < U64 ->
   roundtrip_for sizes inp bs.
 Proof.
-  intros H Ho Hz Hi Hs. destruct (bw_write_multipass_inv _ _ _ _ _ H) as (ids & outs & sum & data & Hcol & Hasm).
-  exact (roundtrip_of_assemble _ _ _ _ _ _ _ _ _ _ _ Hcol Hasm (multi_zoom_bound fp o outs sum Hz) Ho Hi Hs).
+  intros H Ho Hi Hs. destruct (bw_write_multipass_inv _ _ _ _ _ H) as (ids & outs & sum & data & Hcol & Hasm).
+  exact (roundtrip_of_assemble _ _ _ _ _ _ _ _ _ _ _ Hcol Hasm (multi_zoom_bound fp o outs sum) Ho Hi Hs).
 Qed.
 
 (* ---------- the two writers produce the same header fields, data region, chromosome tree and index ---------- *)
 Theorem bw_same_regions fp o sizes inp bs1 bs2 :
-  bw_write fp o sizes inp = Ok bs1 -> bw_write_multipass fp o sizes inp = Ok bs2 -> zoom_levels_ok o ->
+  bw_write fp o sizes inp = Ok bs1 -> bw_write_multipass fp o sizes inp = Ok bs2 ->
   exists data ct ix pre1 pre2 z1 z2,
     bs1 = pre1 ++ data ++ ct ++ ix ++ z1 /\ bs2 = pre2 ++ data ++ ct ++ ix ++ z2
     /\ length pre1 = 352%nat /\ length pre2 = 352%nat.
 Proof.
-  intros H1 H2 Hz.
+  intros H1 H2.
   destruct (bw_write_inv _ _ _ _ _ H1) as (ids & outs & sum & data & zooms & Hcol & Hm & Hasm1).
   destruct (bw_write_multipass_inv _ _ _ _ _ H2) as (ids' & outs' & sum' & data' & Hcol' & Hasm2).
   rewrite Hcol in Hcol'. apply Ok_inj in Hcol'. inversion Hcol'; subst ids' outs' sum' data'; clear Hcol'.
   destruct (assemble_inv _ _ _ _ _ _ _ _ _ _ _ _ _ Hasm1) as [p1 HA1].
-  { intros ds zp zb zh E. pose proof (single_zoom_bound fp o outs zooms Hz Hm _ _ _ _ E). change (Nlen bw_pre) with 352. lia. }
+  { intros ds zp zb zh E. pose proof (single_zoom_bound fp o outs zooms Hm _ _ _ _ E). change (Nlen bw_pre) with 352. lia. }
   destruct (assemble_inv _ _ _ _ _ _ _ _ _ _ _ _ _ Hasm2) as [p2 HA2].
-  { intros ds zp zb zh E. pose proof (multi_zoom_bound fp o outs sum Hz _ _ _ _ E). change (Nlen bw_pre) with 352. lia. }
+  { intros ds zp zb zh E. pose proof (multi_zoom_bound fp o outs sum _ _ _ _ E). change (Nlen bw_pre) with 352. lia. }
   destruct HA1 as (Hct1 & Hix1 & _ & E1 & L1 & _). destruct HA2 as (Hct2 & Hix2 & _ & E2 & L2 & _).
   rewrite Hct1 in Hct2. apply Ok_inj in Hct2. rewrite <- Hct2 in Hix2. rewrite Hix1 in Hix2. apply Ok_inj in Hix2.
   inversion Hix2 as [[Eix Elv]].
@@ -226,7 +217,6 @@ Qed.
 Section Statements.
 Variables (fp : fpmode) (o : opts) (sizes : list (name * N)) (inp : list item) (bs : list N).
 Hypothesis Ho : opts_ok o.
-Hypothesis Hz : zoom_levels_ok o.
 Hypothesis Hi : input_ok sizes inp.
 Hypothesis Hs : Nlen bs < U64.
 
@@ -243,7 +233,7 @@ Qed.
 Lemma write_roundtrip_for : bw_write fp o sizes inp = Ok bs \/ bw_write_multipass fp o sizes inp = Ok bs ->
   roundtrip_for sizes inp bs.
 Proof.
-  intros [H|H]; [exact (bw_write_roundtrip _ _ _ _ _ H Ho Hz Hi Hs)|exact (bw_write_multipass_roundtrip _ _ _ _ _ H Ho Hz Hi Hs)].
+  intros [H|H]; [exact (bw_write_roundtrip _ _ _ _ _ H Ho Hi Hs)|exact (bw_write_multipass_roundtrip _ _ _ _ _ H Ho Hi Hs)].
 Qed.
 
 (* full-span read of a chromosome: every accepted value back, bit-identical, in order, except
